@@ -102,7 +102,7 @@ structure Cfg where
 /-- The configuration as shipped: constants and the feature flag regenerated from the Rust source. -/
 def Cfg.shippedV (maxRecords cacheSize maxValueBytes : Nat) : Cfg :=
   { maxRecords, cacheSize, maxValueBytes,
-    cleanupMin := Gen.Store.maxRecordsCount / Gen.Store.cleanupDivisor,
+    cleanupMin := Gen.Store.cleanupMin,
     encrypt := Gen.Store.shippedEncrypt }
 
 /-- as shipped, with the node's `max_value_bytes = MAX_PACKET_SIZE` -/
